@@ -257,9 +257,12 @@ fn dag_opts(opts: &Opts) -> gen::DagOpts {
 fn timer_opts(opts: &Opts) -> gen::TimerOpts {
     let mut o = gen::TimerOpts::default();
     if cfg!(miri) {
+        // The bound on predicted invocations is a rejection filter: too tight a
+        // bound makes the generator (which runs the reference interpreter for
+        // every candidate, slowly under Miri) discard most candidates.
         o.max_nodes = 2;
         o.max_cmds = 8;
-        o.max_inv = 30;
+        o.max_inv = 60;
     }
     let _ = opts;
     o
